@@ -1706,6 +1706,44 @@ def _descs(ctx, n_random, n_malformed, depth, n_gt):
     return descs
 
 
+def _constant_level_descs(ctx, n):
+    """targeted family: sequences of constant pieces whose levels start with exactly 0 (and repeat), collapsed as a
+    whole and in parts — `SequenceWaveform.constant_value` / `from_sequence` decide from the pieces' constants
+    whether the collapsed waveform is constant"""
+    rng = ctx.fork('constant-levels')
+    descs = []
+    for i in range(n):
+        levels = [F(0)] * rng.choice([1, 1, 2]) + [F(rng.choice([k for k in range(-16, 17) if k]), 8)] * rng.choice([1, 2])
+        if rng.random() < 0.4:
+            levels.append(F(rng.randrange(-16, 17), 8))
+        if rng.random() < 0.25:
+            rng.shuffle(levels)
+        two = rng.random() < 0.4
+        subs = []
+        for v in levels:
+            amps = [['A', fstr_(v)]] + ([['B', fstr_(-v)]] if two else [])
+            if rng.random() < 0.3:
+                subs.append({'k': 'table', 'entries': [[c, [['0', a, 'hold'], ['1', a, 'hold']]] for c, a in amps],
+                             'meas': [], 'cons': []})
+            else:
+                subs.append({'k': 'const', 'dur': rng.choice(['1', '0.5', '2']), 'amps': amps, 'meas': []})
+        spec = {'k': 'seq', 'subs': subs, 'meas': [], 'cons': [], 'id': 'lv'}
+        wrap = rng.random()
+        if wrap < 0.25:
+            spec = {'k': 'rep', 'body': spec, 'count': '2', 'meas': [], 'cons': []}
+        elif wrap < 0.45:
+            spec = {'k': 'seq', 'subs': [spec, copy.deepcopy(subs[-1])], 'meas': [], 'cons': []}
+        elif wrap < 0.6:
+            spec = {'k': 'arith', 'body': spec, 'op': '+', 'scalar': '0.5', 'pt_lhs': True}
+        descs.append({'family': 'given', 'seed': i, 'label': 'constant-levels', 'n_gt': 1, 'max_all': 7,
+                      'case': {'spec': spec, 'params': {}, 'cm': {}, 'mm': None, 'single': []}})
+    return descs
+
+
+def fstr_(x: F) -> str:
+    return ptgen.fstr(x)
+
+
 def _with_ids(rng, spec):
     """identifiers on about half of the nodes of an enumerated nesting"""
     spec = copy.deepcopy(spec)
@@ -1746,6 +1784,7 @@ def run(ctx: core.Ctx):
                                  'subsets of its sub-templates as to_single_waveform; thorough tier: all %d nestings of depth '
                                  '<= 3 over two atoms (quick: %d of them)' % (len(ex_all), len(ex)))
     descs += _descs(ctx, ctx.n(150, 4000), ctx.n(24, 400), depth, n_gt)
+    descs += _constant_level_descs(ctx, ctx.n(14, 200))
     recs = run_trees(ctx, descs)
     for rec in recs:
         bad = assess_tree(ctx, rec, rec['replies'])
